@@ -67,41 +67,41 @@ def ofRun (r : RunResult) : Outcome :=
 def fresh (a : Args) : S := { init a.pools a.failuresLeft with trace := [Ev.load] }
 
 /-- Target resolution + second `Work::run` (what follows the manifest phase in `run::build`). -/
-def phase2 (g : Graph) (a : Args) (c : Choices) (s2 : S) (perms : List (List Nat)) (fin : List (Nat × Term))
-    (tasksBefore : Nat) : S × Outcome :=
+def phase2 {E : Type} (g : Graph) (a : Args) (c : Choices E) (s2 : S) (e : E) (perms : List (List Nat)) (fin : List (Nat × Term))
+    (tasksBefore : Nat) : S × E × Outcome :=
   let wanted : WR Unit :=
     if !a.targets.isEmpty then wantTargets g a s2 a.targets
     else if !a.defaults.isEmpty then wantAll g s2 a.defaults
     else wantAll g s2 ((List.range g.nFiles).filter (· ≠ a.manifest))
   match wanted with
   | .ok _ s3 =>
-    let r2 := runLoop g a.par c (runFuel g) s3 perms fin
+    let r2 := runLoop g a.par c (runFuel g) s3 e perms fin
     match r2.result with
-    | .ok true => (r2.s, .done (tasksBefore + r2.s.tasksRun))
-    | r => (r2.s, ofRun r)
-  | .err m s3 => (s3, .err m)
-  | .bad m => (s2, .panic m)
+    | .ok true => (r2.s, r2.e, .done (tasksBefore + r2.s.tasksRun))
+    | r => (r2.s, r2.e, ofRun r)
+  | .err m s3 => (s3, e, .err m)
+  | .bad m => (s2, e, .panic m)
 
 /-- `run::build` up to a possible reload.  Returns the scheduler state (with its trace) and
     `.reload n` when the manifest phase ran `n > 0` commands. -/
-def build (g : Graph) (a : Args) (c : Choices) : S × Outcome :=
+def build {E : Type} (g : Graph) (a : Args) (c : Choices E) (e : E) : S × E × Outcome :=
   let s0 := fresh a
   -- phase 1: bring the manifest up to date
   match want g s0 a.manifest with
   | .ok _ s1 =>
-    let r1 := runLoop g a.par c (runFuel g) s1 c.perms c.finishes
+    let r1 := runLoop g a.par c (runFuel g) s1 e c.perms c.finishes
     match r1.result with
     | .ok true =>
-      if r1.s.tasksRun ≠ 0 then (r1.s, .reload r1.s.tasksRun)
-      else phase2 g a c r1.s r1.perms r1.finishes 0
-    | r => (r1.s, ofRun r)
-  | .err m s1 => (s1, .err m)
-  | .bad m => (s0, .panic m)
+      if r1.s.tasksRun ≠ 0 then (r1.s, r1.e, .reload r1.s.tasksRun)
+      else phase2 g a c r1.s r1.e r1.perms r1.finishes 0
+    | r => (r1.s, r1.e, ofRun r)
+  | .err m s1 => (s1, e, .err m)
+  | .bad m => (s0, e, .panic m)
 
 /-- The part of `run::build` after the manifest was regenerated: a fresh `Work` on the reloaded
     graph; the manifest itself is not wanted again. -/
-def buildReloaded (g : Graph) (a : Args) (c : Choices) (tasksBefore : Nat) : S × Outcome :=
+def buildReloaded {E : Type} (g : Graph) (a : Args) (c : Choices E) (e : E) (tasksBefore : Nat) : S × E × Outcome :=
   let s0 := fresh a
-  phase2 g a c s0 c.perms c.finishes tasksBefore
+  phase2 g a c s0 e c.perms c.finishes tasksBefore
 
 end N2V.Run
